@@ -79,6 +79,7 @@ type SgxSpec struct {
 	Fmspc  []byte
 	Absent bool // no SGX extension at all
 	RawDER []byte // if non-nil, used verbatim as the extension value
+	Critical bool // the extension is marked critical (crypto/x509 does not know it: path validation of that leaf fails)
 }
 
 type CertSpec struct {
@@ -188,6 +189,8 @@ type CrlSpec struct {
 	Revoked    []*big.Int
 	ThisUpdate time.Time
 	NextUpdate time.Time
+	RevokedAt  time.Time // revocation date of every entry (default: ThisUpdate)
+	IssuerUTF8 bool      // the issuer name is DER-encoded with UTF8String values (the certificates use PrintableString): same name, other bytes
 }
 
 type QuoteSpec struct {
@@ -351,7 +354,7 @@ func (s *Spec) buildCert(c *CertSpec) *BuiltCert {
 		tmpl.KeyUsage |= x509.KeyUsageCertSign | x509.KeyUsageCRLSign
 	}
 	if c.Sgx != nil && !c.Sgx.Absent {
-		tmpl.ExtraExtensions = append(tmpl.ExtraExtensions, pkix.Extension{Id: oidSgx, Value: sgxExtValue(c.Sgx)})
+		tmpl.ExtraExtensions = append(tmpl.ExtraExtensions, pkix.Extension{Id: oidSgx, Critical: c.Sgx.Critical, Value: sgxExtValue(c.Sgx)})
 	}
 	for i := 0; i < c.ExtraExts; i++ {
 		tmpl.ExtraExtensions = append(tmpl.ExtraExtensions, pkix.Extension{Id: asn1.ObjectIdentifier{1, 2, 3, 4, 5, 100 + i}, Value: []byte{5, 0}})
@@ -594,9 +597,31 @@ func (w *World) crl(c *CrlSpec) *Response {
 	issuerSpec := s.Cert(c.IssuerOf)
 	signer := s.Keys[c.SignKey]
 	issuer := &x509.Certificate{Subject: subjectName(issuerSpec.CN, issuerSpec.Org), SubjectKeyId: ski(signer), KeyUsage: x509.KeyUsageCRLSign, PublicKey: &signer.Priv.PublicKey}
+	if c.IssuerUTF8 {
+		var rdns pkix.RDNSequence
+		for _, rdn := range issuer.Subject.ToRDNSequence() {
+			var set pkix.RelativeDistinguishedNameSET
+			for _, atv := range rdn {
+				if str, ok := atv.Value.(string); ok {
+					atv.Value = asn1.RawValue{Class: asn1.ClassUniversal, Tag: asn1.TagUTF8String, Bytes: []byte(str)}
+				}
+				set = append(set, atv)
+			}
+			rdns = append(rdns, set)
+		}
+		raw, err := asn1.Marshal(rdns)
+		if err != nil {
+			panic(err)
+		}
+		issuer.RawSubject = raw
+	}
+	at := c.RevokedAt
+	if at.IsZero() {
+		at = c.ThisUpdate
+	}
 	var entries []x509.RevocationListEntry
 	for _, sn := range c.Revoked {
-		entries = append(entries, x509.RevocationListEntry{SerialNumber: sn, RevocationTime: c.ThisUpdate})
+		entries = append(entries, x509.RevocationListEntry{SerialNumber: sn, RevocationTime: at})
 	}
 	der, err := x509.CreateRevocationList(crand.Reader, &x509.RevocationList{Number: big.NewInt(7), ThisUpdate: c.ThisUpdate, NextUpdate: c.NextUpdate,
 		RevokedCertificateEntries: entries, SignatureAlgorithm: x509.ECDSAWithSHA256}, issuer, signer.Priv)
